@@ -4,7 +4,10 @@ C04 — executable model of the database layout logic (core Lean only).
 Transcribes `Layout._createLayout` (depth-first flattening; the harness passes children in the order
 `sorted(list(comp))` returns — the sort key is a parameter), `indexInData`, grid de-duplication
 (`_seenGridParams` / `gridParams` / `gridIndex`), `_packLocationsV3` / `_unpackLocationsV2`,
-`Database._compose` (consume `numChildren` recursively) and `Layout.computeAncestors`.
+`Database._compose` (consume `numChildren` recursively), `Layout.computeAncestors`, the columns `Layout.writeToDB`
+stores and `_readLayout`/`_initComps` read (`Cols`), `Component.__lt__`, `getH5GroupName`, one HDF5 file as a map from
+group name to statepoint (`Database.writeToDB` into an existing / new group, `Database.load`), and the order in which
+`Database.load` assigns parameters (`_initComps` → `_readParams` → `_assignBlueprintsParams`).
 -/
 namespace ArmiVerif.Layout
 
